@@ -442,15 +442,18 @@ C12_OPTS = {
     "cp": [[], [{"k": "cp", "uri": "https://a.example/portal"}], [{"k": "cp", "uri": "https://b.example/portal"}]],
     "prefix": [[], [_P("2001:db8::/64")], [_P("2001:db8::/64", 7200, 3600)], [_P("2001:db8::/64", 86400, 3600)], [_P("2001:db8:1::/64")],
                [_P("2001:db8::/64"), _P("2001:db8:1::/64", 7200, 3600)], [_P("2001:db8::/64", 7200, 3600), _P("2001:db8::/64")],
-               [_P("2001:db8::/64", -1, -1)], [_P("2001:db8::/56")]],
+               [_P("2001:db8::/64", -1, -1)], [_P("2001:db8::/56")], [_P("2001:db8::/64", 0, 0)], [_P("2001:db8::/64", 86400, 0)],
+               [_P("2001:db8::/64", -1, 14400)]],
     "route": [[], [_R("2001:db8:f::/48")], [_R("2001:db8:f::/48", "medium", 3600)], [_R("2001:db8:f::/48", "high", 3600)],
               [_R("2001:db8:e::/48")], [_R("2001:db8:f::/48"), _R("2001:db8:e::/48", "low", 600)],
-              [_R("2001:db8:f::/48", "medium", 3600), _R("2001:db8:f::/48", "medium", 86400)], [_R("2001:db8:f::/64")]],
+              [_R("2001:db8:f::/48", "medium", 3600), _R("2001:db8:f::/48", "medium", 86400)], [_R("2001:db8:f::/64")],
+              [_R("2001:db8:f::/48", "medium", 0)], [_R("2001:db8:f::/48", "medium", -1)], [_R("2001:db8:f::/48", "high", 0)]],
     "rdnss": [[], [_D(1800, ["2001:db8::53"])], [_D(600, ["2001:db8::53"])], [_D(1800, ["2001:db8::54"])],
               [_D(1800, ["2001:db8::53", "2001:db8::54"])], [_D(1800, ["2001:db8::53"]), _D(1800, ["2001:db8::54"])],
-              [_D(1800, ["2001:db8::54"]), _D(600, ["2001:db8::53"])]],
+              [_D(1800, ["2001:db8::54"]), _D(600, ["2001:db8::53"])], [_D(0, ["2001:db8::53"])], [_D(-1, ["2001:db8::53"])]],
     "dnssl": [[], [_S(1800, ["a.example"])], [_S(600, ["a.example"])], [_S(1800, ["b.example"])],
-              [_S(1800, ["a.example", "b.example"])], [_S(1800, ["a.example"]), _S(1800, ["b.example"])]],
+              [_S(1800, ["a.example", "b.example"])], [_S(1800, ["a.example"]), _S(1800, ["b.example"])],
+              [_S(0, ["a.example"])], [_S(-1, ["a.example"])]],
 }
 
 
